@@ -46,10 +46,59 @@ HARNESSES = [
     H('n_de_owned', 'harness', ['C16', 'C03'], tier='thorough', unwind=72, mem_gb=8, timeout=1800,
       covers=['deserialize Ok', 'deserialize Err'],
       bounds='every ASCII string of length 0..=70 (owned String path)'),
-    H('n_ser', 'harness', ['C16', 'C03'], unwind=68, mem_gb=8, timeout=900,
+    H('n_ser', 'harness', ['C16', 'C03'], tier='thorough', unwind=68, mem_gb=8, timeout=900,
       bounds='all 32-byte values through Serialize'),
     H('n_fmt', 'harness', ['C16', 'C03'], tier='thorough', unwind=68, mem_gb=8, timeout=1800,
       bounds='all 32-byte values through Debug and Display'),
+    # ---- family A: accessors on arbitrary content (C14, C15) ----------------------------------
+    H('a14_tcp', 'harness', ['C14', 'C03'], unwind=8, covers=['two-byte port', 'one-byte port', 'not a port'],
+      bounds='every one-item raw value of <= 4 bytes under tcp'),
+    H('a14_tcp6', 'harness', ['C14', 'C03'], unwind=8, covers=['two-byte port', 'one-byte port', 'not a port'],
+      bounds='every one-item raw value of <= 4 bytes under tcp6'),
+    H('a14_udp', 'harness', ['C14', 'C03'], unwind=8, covers=['two-byte port', 'one-byte port', 'not a port'],
+      bounds='every one-item raw value of <= 4 bytes under udp'),
+    H('a14_udp6', 'harness', ['C14', 'C03'], unwind=8, covers=['two-byte port', 'one-byte port', 'not a port'],
+      bounds='every one-item raw value of <= 4 bytes under udp6'),
+    H('a14_port_isolation', 'harness', ['C14', 'C03'], unwind=8, bounds='one entry under udp, all getters'),
+    H('a14_ip4', 'harness', ['C14', 'C03'], unwind=8, covers=['valid ip', 'invalid ip'],
+      bounds='every one-item raw value of <= 6 bytes under ip'),
+    H('a14_ip6', 'harness', ['C14', 'C03'], unwind=20, covers=['valid ip6', 'invalid ip6'],
+      bounds='every one-item raw value of <= 18 bytes under ip6'),
+    H('a14_id', 'harness', ['C14', 'C03'], unwind=8, covers=['two-byte id', 'id is a list or non-canonical'],
+      bounds='every one-item raw value of <= 4 bytes under id, ASCII payloads'),
+    H('a14_decodable', 'harness', ['C14', 'C03'], unwind=12, covers=['eight-byte integer', 'not an integer'],
+      bounds='every one-item raw value of <= 10 bytes under a custom key, decoded as u64'),
+    H('a14_sockets', 'harness', ['C14', 'C03'], tier='thorough', unwind=20, mem_gb=16, timeout=2400,
+      covers=['both udp sockets', 'addresses without usable udp ports', 'unreachable', 'tcp only'],
+      bounds='all 64 presence combinations of ip/ip6/tcp/tcp6/udp/udp6 with symbolic raw values'),
+    H('a14_sock_all', 'harness', ['C14', 'C03'], unwind=20, mem_gb=12, timeout=1200,
+      covers=['both udp sockets', 'addresses without usable udp ports', 'unreachable', 'tcp only'],
+      bounds='all six address/port keys present, symbolic raw values (valid and invalid)'),
+    H('a14_sock_v4', 'harness', ['C14', 'C03'], unwind=20, mem_gb=12, timeout=1200, covers=['tcp only', 'unreachable'],
+      bounds='ip/tcp/udp present, v6 keys absent, symbolic raw values'),
+    H('a14_sock_v6', 'harness', ['C14', 'C03'], unwind=20, mem_gb=12, timeout=1200, covers=['tcp only', 'unreachable'],
+      bounds='ip6/tcp6/udp6 present, v4 keys absent, symbolic raw values'),
+    H('a14_sock_ips', 'harness', ['C14', 'C03'], unwind=20, mem_gb=12, timeout=1200, covers=['unreachable'],
+      bounds='ip/ip6 present, no ports'),
+    H('a14_sock_ports', 'harness', ['C14', 'C03'], unwind=20, mem_gb=12, timeout=1200, covers=['unreachable'],
+      bounds='four ports present, no addresses'),
+    H('a14_sock_cross', 'harness', ['C14', 'C03'], unwind=20, mem_gb=12, timeout=1200, covers=['unreachable'],
+      bounds='ip with tcp6/udp6 only (crossed families)'),
+    H('a15_eq_hash', 'harness', ['C15', 'C03'], unwind=40, mem_gb=8, timeout=1200,
+      covers=['equal records', 'differ in signature only', 'differ in seq only'],
+      bounds='two arbitrary records: any seq, any node id, signatures of 0..=6 bytes'),
+    H('a15_transitive', 'harness', ['C15'], unwind=40, mem_gb=8, timeout=1200, covers=['chain of equal records'],
+      bounds='three arbitrary records'),
+    H('a15_compare_content', 'harness', ['C15', 'C03'], unwind=12, mem_gb=12, timeout=1800,
+      covers=['same content, other signature', 'same seq and keys, other value'],
+      bounds='two records with content {k, one custom one-byte key} and values of 1..=3 bytes'),
+    # ---- family U: one update step from an arbitrary valid pre-state (C05-C10, C14, C03) --------
+    H('u_set_tcp4', 'harness', ['C05', 'C06', 'C07', 'C08', 'C09', 'C10', 'C14', 'C03'], variant='m24', unwind=8,
+      mem_gb=24, timeout=2400, covers=['update Ok', 'Err(ExceedsMaxSize)', 'Err(SequenceNumberTooHigh)', 'Err(SigningError)', 're-keyed'],
+      bounds='pre-state {id,k}, any seq, any valid signature of 3..=6 bytes; set_tcp4(any port) with any signer (same/other key, may fail, sig 3..=6 bytes); MAX_ENR_SIZE scaled to 24'),
+    H('zp_a', 'harness', ['Z00'], variant='m24', unwind=8, mem_gb=16, timeout=2400),
+    H('zp_b', 'harness', ['Z00'], variant='m24', unwind=8, mem_gb=16, timeout=2400),
+    H('zp_c', 'harness', ['Z00'], variant='m24', unwind=8, mem_gb=16, timeout=2400),
 ]
 
 BY_NAME = {h.name: h for h in HARNESSES}
